@@ -41,3 +41,100 @@ class EngineProp(PropBase):
         if obs['sleeps']:
             tags.append('has-sleeps')
         return tags
+
+
+# ---------------------------------------------------------------- reference comparison
+import refinterp  # noqa: E402
+from core import fail  # noqa: E402
+from fractions import Fraction  # noqa: E402
+
+COF_NAMES = {'pypyr.errors.Stop', 'pypyr.errors.StopPipeline', 'pypyr.errors.StopStepGroup',
+             'pypyr.errors.Call', 'pypyr.errors.Jump', 'pypyr.errors.ControlOfFlowInstruction'}
+
+
+def ref_diffs(case, obs):
+    """Compare the real observation with the reference interpreter (statement-level oracle).
+    Returns (ref, {aspect: message}); ref is None when the case is outside its fragment."""
+    ref = refinterp.reference(case)
+    if ref is None:
+        return None, {}
+    d = {}
+    out, rout = obs['outcome'], ref['outcome']
+    if out[0] != rout[0] or (out[0] == 'err' and (out[1] != rout[1] or (rout[2] is not None and out[2] != rout[2]))):
+        d['outcome'] = f'run ended {out!r}, the documented semantics give {rout!r}'
+    otrace = [e['l'] for e in obs['trace']]
+    tags = [e[0] for e in otrace]
+    rtags = [e[0] for e in ref['trace']]
+    if tags != rtags:
+        k = next((i for i, (a, b) in enumerate(zip(tags, rtags)) if a != b), min(len(tags), len(rtags)))
+        d['trace-tags'] = (f'steps executed {tags!r}, expected {rtags!r} (first difference at position {k})')
+    else:
+        cnt = [[e[1], e[2], e[3]] for e in otrace]
+        rcnt = [[e[1], e[2], e[3]] for e in ref['trace']]
+        if cnt != rcnt:
+            k = next(i for i, (a, b) in enumerate(zip(cnt, rcnt)) if a != b)
+            d['trace-counters'] = (f'at execution {k} ({tags[k]!r}) (i, whileCounter, retryCounter) = '
+                                   f'{cnt[k]!r}, expected {rcnt[k]!r}')
+        w = [e[6]['l'] for e in otrace]
+        rw = [e[4] for e in ref['trace']]
+        if w != rw:
+            k = next(i for i, (a, b) in enumerate(zip(w, rw)) if a != b)
+            d['watch'] = f'at execution {k} ({tags[k]!r}) watched context values {w[k]!r}, expected {rw[k]!r}'
+    sl = [Fraction(n, dn) for n, dn in obs['sleeps']]
+    rs = ref['sleeps']
+    bad = len(sl) != len(rs)
+    if not bad:
+        for a, b in zip(sl, rs):
+            if isinstance(b, tuple):
+                if not (b[1] <= a <= b[2]):
+                    bad = True
+            elif a != b:
+                bad = True
+    if bad:
+        d['sleeps'] = f'slept {[str(x) for x in sl]}, expected {[str(x) if not isinstance(x, tuple) else "[%s,%s]" % (x[1], x[2]) for x in rs]}'
+    errs = [(e.get('name'), e.get('description'), e.get('step'), e.get('swallowed')) for e in engine.run_errors(obs)]
+    rerrs = ref['errors']
+    ok = len(errs) == len(rerrs) and all(
+        a[0] == b[0] and (b[1] is None or a[1] == b[1]) and a[2] == b[2] and a[3] == b[3]
+        for a, b in zip(errs, rerrs))
+    if not ok:
+        d['errors'] = f'runErrors {errs!r}, expected {rerrs!r}'
+    return ref, d
+
+
+def generic_monitors(case, obs):
+    """Statement-level checks that need no reference interpreter."""
+    out = []
+    for e in engine.run_errors(obs):
+        if e.get('name') in COF_NAMES:
+            out.append(fail('cof-in-runErrors', f'runErrors contains a control-of-flow instruction: {e.get("name")}'))
+    if obs.get('stack_depth_after') not in (0, None):
+        out.append(fail('stack-not-balanced', f'pipeline call stack depth after the run is {obs["stack_depth_after"]}'))
+    if obs['outcome'][0] == 'ok' and obs.get('returned_same_context') is False:
+        out.append(fail('returned-context', 'run() did not return the context the pipeline ran on'))
+    return out
+
+
+class RefProp(EngineProp):
+    """Engine property whose monitor compares chosen aspects with the reference interpreter."""
+    aspects = ()
+    known_notes = {}
+
+    def monitor(self, case, obs):
+        out = generic_monitors(case, obs)
+        ref, d = ref_diffs(case, obs)
+        if ref is None:
+            return out
+        for a in self.aspects:
+            if a in d:
+                fp = a
+                for note, kfp in self.known_notes.items():
+                    if note in ref['notes']:
+                        fp = kfp
+                out.append(fail(a, d[a], fp))
+        return out
+
+    def describe(self, case, obs):
+        tags = super().describe(case, obs)
+        tags.append('ref:' + ('applies' if refinterp.reference(case) is not None else 'outside-fragment'))
+        return tags
